@@ -23,7 +23,7 @@ pub open spec fn oods_consistent<Layout: LayoutTrait>(oods: Seq<nat>, ie: &Layou
     Layout::composition_spec(ie, pi, oods.subrange(0, m), coeffs, z, tds, tg) == fadd(oods[m], fmul(oods[m + 1], z))
 }
 
-//@repo crates/stark/src/oods.rs fn verify_oods props=C01
+//@repo crates/stark/src/oods.rs fn verify_oods props=C01,C02
 pub fn verify_oods<Layout: LayoutTrait>(
     oods: &[Felt],
     interaction_elements: &Layout::InteractionElements,
@@ -38,7 +38,7 @@ pub fn verify_oods<Layout: LayoutTrait>(
         Layout::composition_pre(public_input, trace_domain_size@), // [C18:verify-oods-after-public-input-validation]
     ensures
         r.is_ok() ==> oods@.len() == Layout::MASK_SIZE + Layout::CONSTRAINT_DEGREE, // [C01,C02:oods-vector-has-exactly-MASK_SIZE+DEGREE-values]
-        r.is_ok() ==> oods_consistent::<Layout>(fv(oods@), interaction_elements, public_input, fv(constraint_coefficients@), oods_point@, trace_domain_size@, trace_generator@), // [C01:composition-from-trace-equals-claimed-composition-at-the-positions-DEEP-reads]
+        r.is_ok() ==> oods_consistent::<Layout>(fv(oods@), interaction_elements, public_input, fv(constraint_coefficients@), oods_point@, trace_domain_size@, trace_generator@), // [C01,C02:composition-from-trace-equals-claimed-composition-at-the-positions-DEEP-reads]
 {
     proof { Layout::lemma_constants(); }
     // The out-of-domain values are the mask values followed by the composition polynomial values;
@@ -81,7 +81,7 @@ pub open spec fn deep_row(orig: Seq<nat>, inter: Seq<nat>, comp: Seq<nat>, i: in
     row(orig, i, n1) + row(inter, i, n2) + row(comp, i, d)
 }
 
-//@repo crates/stark/src/oods.rs fn eval_oods_boundary_poly_at_points props=C01 rules=R2_enumerate_points
+//@repo crates/stark/src/oods.rs fn eval_oods_boundary_poly_at_points props=C01,C02 rules=R2_enumerate_points
 pub fn eval_oods_boundary_poly_at_points<Layout: LayoutTrait>(
     n_original_columns: usize,
     n_interaction_columns: usize,
@@ -93,19 +93,19 @@ pub fn eval_oods_boundary_poly_at_points<Layout: LayoutTrait>(
 ) -> (r: Vec<Felt>)
     requires
         Layout::params_known(public_input),
-        n_original_columns == Layout::n_cols(public_input).0 && n_interaction_columns == Layout::n_cols(public_input).1, // [C01:column-counts-are-the-layouts]
+        n_original_columns == Layout::n_cols(public_input).0 && n_interaction_columns == Layout::n_cols(public_input).1, // [C01,C02:column-counts-are-the-layouts]
         n_original_columns <= 128 && n_interaction_columns <= 128 && points@.len() <= 0xffff_ffff, // [C18:deep-sizes-small]
         decommitment.original.values@.len() == points@.len() * n_original_columns,       // [C18:original-cells-count-checked-by-decommitment]
         decommitment.interaction.values@.len() == points@.len() * n_interaction_columns, // [C18:interaction-cells-count-checked-by-decommitment]
         composition_decommitment.values@.len() == points@.len() * Layout::CONSTRAINT_DEGREE, // [C18:composition-cells-count-checked-by-decommitment]
-        eval_info.oods_values@.len() == Layout::MASK_SIZE + Layout::CONSTRAINT_DEGREE,             // [C01:deep-uses-an-oods-vector-of-the-checked-length]
+        eval_info.oods_values@.len() == Layout::MASK_SIZE + Layout::CONSTRAINT_DEGREE,             // [C01,C02:deep-uses-an-oods-vector-of-the-checked-length]
         eval_info.constraint_coefficients@.len() == Layout::MASK_SIZE + Layout::CONSTRAINT_DEGREE, // [C16:deep-one-coefficient-per-opening]
     ensures
-        r@.len() == points@.len(), // [C01,C07:one-fri-input-value-per-query]
+        r@.len() == points@.len(), // [C01,C02,C07:one-fri-input-value-per-query]
         forall|i: int| 0 <= i < points@.len() ==> (#[trigger] r@[i])@ == Layout::oods_poly_spec(public_input,
             deep_row(fv(decommitment.original.values@), fv(decommitment.interaction.values@), fv(composition_decommitment.values@), i,
                      n_original_columns as int, n_interaction_columns as int, Layout::CONSTRAINT_DEGREE as int),
-            fv(eval_info.oods_values@), fv(eval_info.constraint_coefficients@), points@[i]@, eval_info.oods_point@, eval_info.trace_generator@), // [C01:fri-input-is-DEEP-of-the-DECOMMITTED-cells-and-the-SAME-oods-vector]
+            fv(eval_info.oods_values@), fv(eval_info.constraint_coefficients@), points@[i]@, eval_info.oods_point@, eval_info.trace_generator@), // [C01,C02:fri-input-is-DEEP-of-the-DECOMMITTED-cells-and-the-SAME-oods-vector]
 {
     proof { Layout::lemma_constants(); }
     assert!(
